@@ -456,4 +456,64 @@ def run : List Op → SDB → Option SDB
     | none => none
     | some s' => run ops s'
 
+/-! ### several StateDB instances over one `state.Database` -/
+
+/-- the `state.Database` (content by committed root, append-only: the index of a commit stands for its root) and the
+    StateDB instances opened over it (`state.New`, `Reset`, `Copy`). In Go they share the node database and the cachingDB's
+    past-trie cache; `OpenTrie`/`CopyTrie` hand out copies, so in the model every instance is a value of its own. -/
+structure World where
+  committed : List (Addr → Option Acct)
+  insts : List SDB
+
+/-- operations on one instance of a `World`. -/
+inductive IOp
+  | tx (o : TxOp)
+  | prepare (th : Nat)
+  | finalise (d : Bool)
+  | commit (d : Bool)
+  | reset (k : Nat)
+
+/-- apply `op` to instance `i` (`none`: no such instance / no such commit / the Go code panics). -/
+def World.stepAt (w : World) (i : Nat) (op : IOp) : Option World :=
+  match w.insts[i]? with
+  | none => none
+  | some s =>
+    match op with
+    | .tx o => (stepTx o s).map fun s' => { w with insts := w.insts.set i s' }
+    | .prepare th => some { w with insts := w.insts.set i (prepare s th) }
+    | .finalise d => some { w with insts := w.insts.set i (finalise d s) }
+    | .commit d => some { committed := w.committed ++ [(commit d s).trie], insts := w.insts.set i (commit d s) }
+    | .reset k => (w.committed[k]?).map fun c => { w with insts := w.insts.set i (reset s c) }
+
+/-- `state.New(root_k, db)`: one more instance. -/
+def World.openAt (w : World) (k : Nat) : Option World :=
+  (w.committed[k]?).map fun c => { w with insts := w.insts ++ [fresh c] }
+
+/-- `insts[i].Copy()`: one more instance. -/
+def World.copyOf (w : World) (i : Nat) : Option World :=
+  (w.insts[i]?).map fun s => { w with insts := w.insts ++ [copy s] }
+
+/-- a history over a world: steps on chosen instances, opens and copies. -/
+inductive WStep
+  | at (i : Nat) (op : IOp)
+  | openAt (k : Nat)
+  | copyOf (i : Nat)
+
+def World.step (w : World) : WStep → Option World
+  | .at i op => w.stepAt i op
+  | .openAt k => w.openAt k
+  | .copyOf i => w.copyOf i
+
+def World.run : List WStep → World → Option World
+  | [], w => some w
+  | st :: sts, w =>
+    match w.step st with
+    | none => none
+    | some w' => World.run sts w'
+
+/-- the step does not operate on instance `j` (reading it for a Copy is allowed). -/
+def WStep.avoids (j : Nat) : WStep → Bool
+  | .at i _ => i != j
+  | _ => true
+
 end Aqv.State
